@@ -8,7 +8,7 @@ namespace Driver.P10
 `mode = "model"` (K) and `"monitor"` (P): `{"ntasks":n,"npaths":n,"ops":[op…]}` (model mode: optional
 `"repaired":true` = `depChangedRepaired`, the loop with the repair of findings/pending/C10-readded-dep-stale-state.md); ops are those of the status driver
 for the file system / definitions / commands (`edit touch delete editKeep redefine checker forget ignore unmet`) plus
-  `["addcalc", t, [p…]]`                 `update_deps`: file_dep delivered by a calc_dep task (both modes)
+  `["addcalc", t, [p…](, [utd item…])]`  `update_deps`: file_dep (and `uptodate` items) delivered by a calc_dep task (both modes)
   `["select", t, always]`                model mode: `get_status` of `t` is reached; answer: status, executes, the kwargs
   `["complete", t, ok, writes, res]`     model mode: actions ran, `process_task_result`
   `["sel", t, always, {"changed":[p…],"dependencies":[p…],"targets":[p…]}]`
@@ -52,7 +52,7 @@ def classOf (s : St) (sn : Seen) (t p : Nat) : String :=
 
 inductive Ev
   | st (e : Driver.Status.Ev)
-  | addcalc (t : Nat) (ps : List Nat)
+  | addcalc (t : Nat) (ps : List Nat) (utd : List Utd)
   | select (t : Nat) (always : Bool)
   | complete (t : Nat) (ok : Bool) (writes : List (Nat × Nat × Nat)) (res : Option Nat)
   | sel (t : Nat) (always : Bool) (kw : Kw)
@@ -61,16 +61,23 @@ def parseEv (j : Json) : Option Ev :=
   match asArr j with
   | [tag, a, b] =>
     match asStr tag with
-    | "addcalc" => some (.addcalc (asNat a) ((asArr b).map asNat))
+    | "addcalc" => some (.addcalc (asNat a) ((asArr b).map asNat) [])
     | "select" => some (.select (asNat a) (Driver.Status.asBool b))
     | _ => (Driver.Status.parseEv j).map .st
   | [tag, a, b, c] =>
     match asStr tag with
+    | "addcalc" => some (.addcalc (asNat a) ((asArr b).map asNat) ((asArr c).map Driver.Status.parseUtd))
     | "sel" => some (.sel (asNat a) (Driver.Status.asBool b) (parseKw c))
     | _ => (Driver.Status.parseEv j).map .st
   | [tag, t, ok, writes, res] =>
     match asStr tag with
     | "complete" => some (.complete (asNat t) (Driver.Status.asBool ok) (Driver.Status.parseWrites writes) (Driver.Status.optNat res))
+    | _ => (Driver.Status.parseEv j).map .st
+  | [tag, t, ok, writes, res, saveable] =>
+    match asStr tag with
+    -- `["complete", t, actionsOk, writes, res, saveable]`: values / result that the DB can not store
+    | "complete" => some (.complete (asNat t) (completeOk (Driver.Status.asBool ok) (Driver.Status.asBool saveable))
+                            (Driver.Status.parseWrites writes) (Driver.Status.optNat res))
     | _ => (Driver.Status.parseEv j).map .st
   | _ => (Driver.Status.parseEv j).map .st
 
@@ -87,7 +94,7 @@ def selectJ (repaired : Bool) (s : St) (t : Nat) (always : Bool) : Json :=
 def modelStep (repaired : Bool) (s : St) : Ev → St × Json
   | .st (.op o) => (istep s (.base o), Json.mkObj [("kind", Json.str "op"), ("crashed", Json.bool (istep s (.base o)).crashed)])
   | .st _ => (s, nullJ)
-  | .addcalc t ps => (istep s (.base (.redefine t (withCalc (s.defs t) ps))),
+  | .addcalc t ps utd => (istep s (.base (.redefine t (withCalcU (s.defs t) ps utd))),
       Json.mkObj [("kind", Json.str "addcalc"), ("deps", ofNats (sortNats (withCalc (s.defs t) ps).deps))])
   | .select t always => (istep s (.select t), selectJ repaired s t always)
   | .complete t ok ws res =>
@@ -111,7 +118,7 @@ def monStep (acc : St × Seen) : Ev → (St × Seen) × Json
     let sn := if ok then seenPut sn0 t (s.defs t).deps s'.fs else sn0
     ((s', sn), nullJ)
   | .st _ => (acc, nullJ)
-  | .addcalc t ps => ((step true acc.1 (.redefine t (withCalc (acc.1.defs t) ps)), acc.2), nullJ)
+  | .addcalc t ps utd => ((step true acc.1 (.redefine t (withCalcU (acc.1.defs t) ps utd)), acc.2), nullJ)
   | .sel t _ kw =>
     let s := acc.1
     let deps := (s.defs t).deps
